@@ -12,7 +12,9 @@ const (
 	// RRewrite re-encodes a ClientHello / ServerHello that fills the record so that it parses to the same
 	// fields but is not the same bytes: Off 0 appends an unknown, empty extension (adding the extensions
 	// block if there is none), Off 1 exchanges the first two extensions, Off 2 appends a second extensions-like
-	// tail of two zero bytes behind the message inside the record. Lengths are fixed up.
+	// tail of two zero bytes behind the message inside the record. Lengths are fixed up. Further forms work on
+	// other messages (RewritePayload): Off 3 lengthens a ChangeCipherSpec by a zero byte, Off 4 cuts the list of a
+	// Certificate message down to its first certificate, Off 5 empties the list.
 	RRewrite = "rewrite"
 )
 
@@ -115,7 +117,14 @@ func (m *RecordMITM) Filter(b []byte) (out [][]byte, cut bool) {
 			case RInject:
 				emit = append([][]byte{clone(f.Data)}, emit...)
 			case RRewrite:
-				if nr := rewriteHello(rec, f.Off); nr != nil {
+				nr := rewriteHello(rec, f.Off)
+				if f.Off >= 3 {
+					nr = nil
+					if np := RewritePayload(rec[0], rec[5:], f.Off, 4); np != nil {
+						nr = append([]byte{rec[0], rec[1], rec[2], byte(len(np) >> 8), byte(len(np))}, np...)
+					}
+				}
+				if nr != nil {
 					rec = nr
 					emit = [][]byte{rec}
 				} else {
@@ -240,4 +249,61 @@ func rewriteHello(rec []byte, how int) []byte {
 	out := []byte{rec[0], rec[1], rec[2], byte((len(nb) + 4) >> 8), byte(len(nb) + 4), typ, byte(len(nb) >> 16), byte(len(nb) >> 8), byte(len(nb))}
 	out = append(out, nb...)
 	return out
+}
+
+// RewritePayload applies the structured rewrites 3..5 (see RRewrite) to the payload of an unprotected record of
+// content type typ; hdr is the length of a handshake message header (4 on the stream stack, 12 on the datagram
+// stack, where only unfragmented messages are rewritten and both length fields are fixed up). nil: not applicable.
+//
+//go:norace
+func RewritePayload(typ byte, pl []byte, how int, hdr int) []byte {
+	switch {
+	case how == 3 && typ == 20:
+		return append(clone(pl), 0)
+	case (how == 4 || how == 5) && typ == 22:
+		for q := 0; q+hdr <= len(pl); {
+			n := int(pl[q+1])<<16 | int(pl[q+2])<<8 | int(pl[q+3])
+			if hdr == 12 {
+				fo := int(pl[q+6])<<16 | int(pl[q+7])<<8 | int(pl[q+8])
+				fl := int(pl[q+9])<<16 | int(pl[q+10])<<8 | int(pl[q+11])
+				if fo != 0 || fl != n {
+					return nil
+				}
+			}
+			if q+hdr+n > len(pl) {
+				return nil
+			}
+			if pl[q] != 11 {
+				q += hdr + n
+				continue
+			}
+			body := pl[q+hdr : q+hdr+n]
+			if len(body) < 3 {
+				return nil
+			}
+			var list []byte
+			if how == 4 {
+				if len(body) < 6 {
+					return nil
+				}
+				c0 := int(body[3])<<16 | int(body[4])<<8 | int(body[5])
+				if 6+c0 >= len(body) { // a single certificate: nothing to cut
+					return nil
+				}
+				list = clone(body[3 : 6+c0])
+			} else if len(body) == 3 {
+				return nil
+			}
+			nb := append([]byte{byte(len(list) >> 16), byte(len(list) >> 8), byte(len(list))}, list...)
+			out := clone(pl[:q+hdr])
+			out[q+1], out[q+2], out[q+3] = byte(len(nb)>>16), byte(len(nb)>>8), byte(len(nb))
+			if hdr == 12 {
+				out[q+9], out[q+10], out[q+11] = out[q+1], out[q+2], out[q+3]
+			}
+			out = append(out, nb...)
+			out = append(out, pl[q+hdr+n:]...)
+			return out
+		}
+	}
+	return nil
 }
